@@ -6,6 +6,7 @@ package c05
 
 import (
 	"fmt"
+	"os"
 
 	"verifharness/core"
 	"verifharness/netsim"
@@ -46,8 +47,8 @@ func plans(quick bool) []netsim.CrashPlan {
 		// the victim is the round-1 proposer of an even height for one v, the round-2 proposer for another
 		ps = append(ps, netsim.CrashPlan{Name: fmt.Sprintf("flush-4v-victim%d-round2-txs", v), N: 4, Victim: v, Flush: true, Heights: 4, Round2: true, WithTxs: true, Late: v%2 == 1})
 	}
-	ps = append(ps, netsim.CrashPlan{Name: "flush-4v-victim3-valchange-late-txs", N: 4, Victim: 3, Flush: true, Heights: 6, ValChange: true, Late: true, WithTxs: true})
-	ps = append(ps, netsim.CrashPlan{Name: "cache-4v-victim0-valchange", N: 4, Victim: 0, Flush: false, Heights: 6, ValChange: true})
+	ps = append(ps, netsim.CrashPlan{Name: "flush-4v-victim1-valchange-late-txs", N: 4, Victim: 1, Flush: true, Heights: 6, ValChange: true, Late: true, WithTxs: true})
+	ps = append(ps, netsim.CrashPlan{Name: "cache-4v-victim1-valchange", N: 4, Victim: 1, Flush: false, Heights: 6, ValChange: true})
 	ps = append(ps, netsim.CrashPlan{Name: "cache-4v-victim2-round2", N: 4, Victim: 2, Flush: false, Heights: 4, Round2: true})
 	for v := 0; v < 4; v += 2 {
 		ps = append(ps, netsim.CrashPlan{Name: fmt.Sprintf("flush-4v-victim%d-second-txs", v), N: 4, Victim: v, Flush: true, Heights: 4, Second: true, WithTxs: true})
@@ -65,6 +66,9 @@ func Main() {
 	totalPoints := 0
 	for _, plan := range plans(r.Quick()) {
 		plan := plan
+		if only := os.Getenv("VERIF_C05_PLAN"); only != "" && only != plan.Name { // debugging aid: one plan
+			continue
+		}
 		n := 1
 		if !r.IsChild() {
 			total, start, err := netsim.GoldenLen(plan)
